@@ -28,11 +28,11 @@ ASSUMPTIONS = ['same kernel assumptions as C03',
 
 METHODS = ['GET', 'POST', 'OPTIONS', 'PUT', 'DELETE', 'HEAD', 'PATCH']
 EIOS = ['absent', '4', '3', 'empty', '44', 'repeated']
-TRANSPORTS = ['absent', 'polling', 'websocket', 'bogus', 'Polling']
+TRANSPORTS = ['absent', 'polling', 'websocket', 'bogus', 'Polling', 'poll', 'socket']
 SIDS = ['absent', 'live-polling', 'live-upgraded', 'mid-upgrade', 'closed', 'unknown', 'rejected']
 KINDS = ['http', 'ws']
-JSONP = ['absent', '0', '12', 'x', 'empty']
-CONFIGS = ['both', 'polling', 'websocket']
+JSONP = ['absent', '0', '12', 'x', 'empty', 'sup2']
+CONFIGS = ['both', 'polling', 'websocket', 'polling-str', 'websocket-str']
 IMPLS = ['thread', 'async']
 
 
@@ -50,10 +50,12 @@ def feasible(c):
     impl, cfg, sidk, method, kind, eio, tr, j = c
     if kind == 'ws' and method != 'GET':
         return False
-    if cfg == 'polling' and sidk in ('live-upgraded', 'mid-upgrade'):
+    if cfg.startswith('polling') and sidk in ('live-upgraded', 'mid-upgrade'):
         return False
-    if cfg == 'websocket' and sidk in ('live-polling', 'mid-upgrade', 'closed'):
+    if cfg.startswith('websocket') and sidk in ('live-polling', 'mid-upgrade', 'closed'):
         return False
+    if cfg.endswith('-str') and (eio in ('3', 'empty', '44') or j in ('12', 'empty')):
+        return False            # keep the product small: the string form varies transport only
     return True
 
 
@@ -61,7 +63,8 @@ def ref_admission(c):
     """-> ('refuse', {statuses}) | ('admit',) | ('open', why)"""
     impl, cfg, sidk, method, kind, eio, tr, j = c
     allowed_tr = {'both': ['polling', 'websocket'], 'polling': ['polling'],
-                  'websocket': ['websocket']}[cfg]
+                  'websocket': ['websocket'], 'polling-str': ['polling'],
+                  'websocket-str': ['websocket']}[cfg]
     eff_tr = 'polling' if tr == 'absent' else tr
     bad_method = method not in ('GET', 'POST', 'OPTIONS')
     viol = []
@@ -73,7 +76,7 @@ def ref_admission(c):
         viol.append('transport-not-allowed')
     if sidk == 'absent' and eio != '4':
         viol.append('version')
-    if j == 'x':
+    if j in ('x', 'sup2'):
         viol.append('jsonp-index')
     if sidk in ('closed', 'unknown', 'rejected'):
         viol.append('sid-not-live')
@@ -133,6 +136,8 @@ def build_query(c, sid):
         parts.append('sid=' + sid)
     if j == 'empty':
         parts.append('j=')
+    elif j == 'sup2':
+        parts.append('j=%C2%B2')        # SUPERSCRIPT TWO: a digit character, not a number
     elif j != 'absent':
         parts.append('j=' + j)
     return '&'.join(parts)
@@ -141,7 +146,7 @@ def build_query(c, sid):
 def setup_state(ex, c):
     """Bring a fresh world into the state the cell needs. Returns (sess|None, sid|None)."""
     impl, cfg, sidk, method, kind, eio, tr, j = c
-    first = 'websocket' if cfg == 'websocket' else 'polling'
+    first = 'websocket' if cfg.startswith('websocket') else 'polling'
     ex.do({'op': 'open', 'transport': first, 'autopong': False, 'autopoll': False})   # bystander
     if sidk == 'absent':
         return None, None
@@ -152,10 +157,10 @@ def setup_state(ex, c):
         s = ex.sessions[1]
         return s, ex.sid_of(s)
     ex.do({'op': 'open', 'transport': 'websocket' if (sidk == 'live-upgraded' and
-                                                      cfg == 'websocket') else 'polling'})
+                                                      cfg.startswith('websocket')) else 'polling'})
     s = ex.sessions[1]
     i = 1
-    if sidk == 'live-upgraded' and cfg != 'websocket':
+    if sidk == 'live-upgraded' and not cfg.startswith('websocket'):
         ex.do({'op': 'upg_connect', 's': i})
         ex.do({'op': 'ws_send', 's': i, 'sock': 'upg', 'frame': rm.tag('2probe')})
         ex.do({'op': 'ws_send', 's': i, 'sock': 'upg', 'frame': rm.tag('5')})
@@ -186,7 +191,8 @@ def check_cell(c, ctx=None):
     impl, cfg, sidk, method, kind, eio, tr, j = c
     rep = {'cell': list(c)}
     ref = ref_admission(c)
-    transports = {'both': None, 'polling': ['polling'], 'websocket': ['websocket']}[cfg]
+    transports = {'both': None, 'polling': ['polling'], 'websocket': ['websocket'],
+                  'polling-str': 'polling', 'websocket-str': 'websocket'}[cfg]
     ex = Exec(impl, {'transports': transports, 'http_compression': False})
     try:
         s, sid = setup_state(ex, c)
